@@ -573,6 +573,8 @@ def run(run, model):
     except AnalysisIncomplete as e:
         run.skipped.append({"rule_fn": "r01_3", "reason": str(e)})
     run.try_rule(r08_8, model)
+    run.rule("R08.20", "a closure literal is lifted from its own body, never answered from another occurrence's record (shared with C01 R01.12)")
+    run.try_rule(c01.r01_12, model)
     run.try_rule(r08_5, model)
     from rules import c07
     run.rule("R08.6", "the closure-type predicates and rewriters of lift.rs are structural over every type former (shared with C07 R07.2, restricted to lift.rs)")
